@@ -44,6 +44,7 @@ pub fn scenarios(thorough: bool) -> Vec<Sc> {
         pg_event: false,
         busy_sup: false,
         sup_drains: false,
+        stale_unlink: false,
     };
     for kind in [Kind::Send, Kind::Local] {
         let mut a = base(kind, Variant::Linked, Site::Handle, P::Awaits, Closer::Stop(Some("bye")));
@@ -59,6 +60,10 @@ pub fn scenarios(thorough: bool) -> Vec<Sc> {
         v.push(s);
         v.push(base(kind, Variant::Plain, Site::PostStop, P::Awaits, Closer::Stop(None)));
         v.push(base(kind, Variant::Linked, Site::PreStart, P::Err, Closer::None));
+        // a post_start that fails: no handler and no post_stop afterwards
+        v.push(base(kind, Variant::Linked, Site::PostStart, P::Err, Closer::None));
+        v.push(base(kind, Variant::Plain, Site::PostStart, P::Panic, Closer::Stop(None)));
+        v.push(base(kind, Variant::Plain, Site::Sup, P::Err, Closer::None));
         v.push(base(kind, Variant::Plain, Site::Handle, P::SendsSelf, Closer::Drain));
         v.push(base(kind, Variant::Linked, Site::Handle, P::SelfKill, Closer::None));
         // a stopper, a drainer and a killer at once
